@@ -22,7 +22,7 @@ LEVEL_TEXT = (
     "intermediate relation one request is made ill-formed by exactly one edit (missing column in a calculation / sort "
     "term / selection / join predicate / projection, re-used calculation tag, chain operands with different columns or "
     "engines, join across engines with neither backtracking nor transfer (or with default options, where only EngineError / "
-    "ColumnError or a well-formed tree holding both operands' columns is acceptable), expression unsupported by the engine, slice "
+    "ColumnError or a well-formed tree holding both operands' columns is acceptable), expression unsupported by the engine (bare, nested below other functions, or inside AND / OR / NOT of a selection predicate), slice "
     "negative / reversed / stepped / not a slice) and issued with drawn preferred-engine options.  The call must raise "
     "the documented class and leave every existing relation's fingerprint unchanged."
 )
@@ -48,6 +48,7 @@ EDITS = (
     "join-different-engines-default-options",
     "calc-unsupported-expression",
     "sort-unsupported-expression",
+    "sel-unsupported-expression",
     "sort-unsupported-equal-to-existing",
     "sel-reuses-join-predicate",
     "sel-reuses-join-predicate",
@@ -251,11 +252,13 @@ def make_request(edit, rel, node, env, leaves, universe, opts, seed_expr, pick, 
             raise Skip()
         bad = ("rneg", other_kind, ("ref", c))
         return (lambda: sorted_rel.sorted([SortTerm(lib_e(bad), True)])), (EngineError,), f"sort by {fmt_e(bad)} on a relation already sorted by -{c} in {rel.engine}"
-    if edit in ("calc-unsupported-expression", "sort-unsupported-expression"):
+    if edit in ("calc-unsupported-expression", "sort-unsupported-expression", "sel-unsupported-expression"):
         if not cols:
             raise Skip()
         other_kind = "it" if kind_here == "sql" else "sql"
-        e = ("rneg", other_kind, ("ref", some(cols)))
+        inner = ("rneg", other_kind, ("ref", some(cols)))
+        # the unsupported function may sit below a function that itself declares this engine, or below an unrestricted one
+        e = (inner, ("rneg", kind_here, inner), ("add", inner, ("lit", 1)), ("rneg", kind_here, ("add", ("lit", 1), inner)))[(pick // 7) % 4]
         # a preferred engine of the other kind could legitimately take the operation: keep the request in this kind
         oo = dict(o)
         if oo:
@@ -270,6 +273,23 @@ def make_request(edit, rel, node, env, leaves, universe, opts, seed_expr, pick, 
                 classes_ok_if_wellformed = False
         else:
             classes_ok_if_wellformed = False
+        if edit == "sel-unsupported-expression":
+            bad = ("ge", e, ("lit", 0))
+            fine = ("ge", ("ref", some(cols)), ("lit", 0))
+            p = (
+                bad,
+                ("or", (bad, fine)),
+                ("or", (fine, bad)),
+                ("not", ("or", (fine, bad))),
+                ("and", (fine, ("or", (bad, fine)))),
+                ("and", (fine, bad)),
+                ("not", bad),
+            )[(pick // 29) % 7]
+            return (
+                (lambda: rel.with_rows_satisfying(lib_p(p, raw_connectives=bool(pick % 2)), **oo)),
+                (EngineError,) + (("wellformed",) if classes_ok_if_wellformed else ()),
+                f"selection on {fmt_p(p)} in {rel.engine}",
+            )
         if edit == "calc-unsupported-expression":
             if not missing:
                 raise Skip()
